@@ -173,9 +173,14 @@ MergeLoop(d, g, tb, prm, useExcl) ==
   ELSE LET s == MergeStep(d, g, tb, prm, useExcl) IN MergeLoop(d, s.g, s.tb, prm, useExcl)
 MergeClose(d, g0, prm, useExcl) == MergeLoop(d, g0, PrelimTable(d, g0, prm), prm, useExcl)
 RECURSIVE MergeTies(_, _, _, _, _)
-MergeTies(d, g, tb, prm, useExcl) ==        \* did any comparison sit exactly on the separation ?
-  (\E j \in 2..Len(tb) : OnTie(tb, j, prm)) \/
-  (~MergeDone(tb, prm) /\ LET s == MergeStep(d, g, tb, prm, useExcl) IN MergeTies(d, s.g, s.tb, prm, useExcl))
+MergeTies(d, g, tb, prm, useExcl) ==        \* is the outcome of the loop undetermined at this level of abstraction ?
+  \/ \E j \in 2..Len(tb) : OnTie(tb, j, prm)                          \* a comparison sits exactly on the separation
+  \/ /\ ~MergeDone(tb, prm)
+     /\ LET s == MergeStep(d, g, tb, prm, useExcl)
+             i == SetMin({j \in 2..Len(tb) : TooClose(tb, j, prm)})
+             M == MemIdx(s.g, tb[i - 1].cid)                           \* the merged group
+         IN \/ ~TieFree(d, (IF useExcl THEN Selected(d, M, prm) ELSE M), prm.lb)   \* simultaneous hits at the edge of its look-back window
+            \/ MergeTies(d, s.g, s.tb, prm, useExcl)
 
 (* ---- layering ---------------------------------------------------------- *)
 (* Group table row `ind` (1-based here, 0-based in the code) is examined   *)
